@@ -57,6 +57,14 @@ func (e *Engine) saveLocalsBaseline(verifDir string, fns []*types.Func) {
 	for _, fn := range fns {
 		if fi, ok := e.funcs[fn]; ok {
 			all[funcKey(fn)] = e.localDecls(fi)
+			// the names of the results, in order ("" for unnamed ones): a contract that mentions a named result
+			// still means that result after the names were dropped from the signature
+			var rs []localDecl
+			res := fn.Type().(*types.Signature).Results()
+			for i := 0; i < res.Len(); i++ {
+				rs = append(rs, localDecl{res.At(i).Name(), types.TypeString(res.At(i).Type(), func(p *types.Package) string { return p.Name() })})
+			}
+			all[funcKey(fn)+"#results"] = rs
 		}
 	}
 	keys := make([]string, 0, len(all))
@@ -81,6 +89,15 @@ func (e *Engine) saveLocalsBaseline(verifDir string, fns []*types.Func) {
 	var names []string
 	for fn := range e.funcs {
 		names = append(names, funcKey(fn))
+	}
+	// and every package-level variable (a table added later has no contract either)
+	for _, p := range e.pkgs {
+		sc := p.Types.Scope()
+		for _, n := range sc.Names() {
+			if v, ok := sc.Lookup(n).(*types.Var); ok {
+				names = append(names, "var:"+globalKey(v))
+			}
+		}
 	}
 	sort.Strings(names)
 	data, _ := json.MarshalIndent(names, "", " ")
@@ -370,7 +387,20 @@ func (u *Unit) shapeOf(body ast.Node, info *types.Info, loops map[ast.Node]int, 
 			if x.Cond != nil {
 				c = exprText(x.Cond)
 			}
-			sh.Loops[k-1] = u.stableText("for:" + c)
+			// the form of the loop (which of init / condition / post it has) is part of its signature: a loop
+			// rewritten from `for { ... break }` to a three-clause loop has a different head, its invariants
+			// do not carry over
+			form := ""
+			if x.Init != nil {
+				form += "i"
+			}
+			if x.Cond != nil {
+				form += "c"
+			}
+			if x.Post != nil {
+				form += "p"
+			}
+			sh.Loops[k-1] = u.stableText("for[" + form + "]:" + c)
 		}
 	}
 	for l, k := range lits {
@@ -410,6 +440,9 @@ func alignOrdinals(base, cur []string) (map[int]int, []int) {
 		// a gap of equal size on both sides: headers were edited in place, keep positions
 		if len(gb) == len(gc) {
 			for k := range gb {
+				if loopForm(base[gb[k]]) != loopForm(cur[gc[k]]) {
+					continue // a different kind of loop took its place
+				}
 				mp[gc[k]+1] = gb[k] + 1
 				matched[gb[k]] = true
 			}
@@ -472,4 +505,13 @@ func (e *Engine) saveShapes(verifDir string, units []*Unit) {
 	}
 	data, _ := json.MarshalIndent(all, "", " ")
 	os.WriteFile(filepath.Join(verifDir, "baseline", "shapes.json"), append(data, '\n'), 0o644)
+}
+
+// loopForm: the part of a loop signature that says what kind of head it has ("range", "for[icp]", ...; for
+// function literal signatures the whole type).
+func loopForm(sig string) string {
+	if i := strings.Index(sig, ":"); i >= 0 && (strings.HasPrefix(sig, "for[") || strings.HasPrefix(sig, "range")) {
+		return sig[:i]
+	}
+	return sig
 }
